@@ -192,7 +192,8 @@ def run_case(ctx, g, rng):
         for r in order:
             if r.usyn and rng.random() < 0.5:  # canonical part first, the URI synonyms arrive later by merge
                 steps.append((r._replace(usyn=()), False))
-                steps.append((r._replace(uri_prefix=r.usyn[0], usyn=r.usyn[1:], psyn=()), True))
+                us = list(dict.fromkeys(r.usyn))  # (a record may repeat one of its own synonyms)
+                steps.append((r._replace(uri_prefix=us[0], usyn=tuple(us[1:]), psyn=()), True))
             else:
                 steps.append((r, False))
         rng.shuffle(steps)
